@@ -38,6 +38,8 @@ pub struct Profile {
     pub p_math_exprs: f64,
     pub p_where_col_cmp: f64,
     pub p_where_fn: f64,
+    pub p_many_aggs: f64,
+    pub p_hidden_keys: f64,
     pub p_schema_path: f64,
     pub p_cond_agg: f64,
     pub p_inner_where: f64,
@@ -81,6 +83,8 @@ impl Profile {
             p_math_exprs: 0.06,
             p_where_col_cmp: 0.05,
             p_where_fn: 0.05,
+            p_many_aggs: 0.02,
+            p_hidden_keys: 0.03,
             p_schema_path: 0.0,
             p_cond_agg: 0.04,
             p_inner_where: 0.5,
@@ -95,12 +99,12 @@ impl Profile {
             p_multi_dp: 0.0,
         };
         match prop {
-            "C03" => Profile { p_on_or: 0.04, p_cross: 0.04, p_outer_kinds: 0.05, p_multi_dp: 0.06, p_shared_cte: 0.05, p_nested_group: 0.03, ..base },
+            "C03" => Profile { p_many_aggs: 0.1, p_on_or: 0.04, p_cross: 0.04, p_outer_kinds: 0.05, p_multi_dp: 0.06, p_shared_cte: 0.05, p_nested_group: 0.03, ..base },
             "C01" => Profile { p_nested_by_id: 0.04, p_on_or: 0.06, p_cross: 0.06, p_outer_kinds: 0.06, p_shared_cte: 0.03, p_nested_group: 0.05, ..base },
-            "C09" => Profile { p_schema_path: 0.1, p_cond_agg: 0.15, p_where_fn: 0.2, p_where_col_cmp: 0.2, p_math_exprs: 0.2, p_count_of_unique: 0.6, p_fn_exprs: 0.25, p_modulo: 0.12, p_alias_shadow: 0.4, public_keys_only: true, benign_data: true, p_distinct: 0.12, p_row_privacy: 0.15, p_grouped: 0.65, ..base },
-            "C04" => Profile { p_where_fn: 0.2, p_unsupported_agg: 0.08, p_key_via_agg: 0.25, p_nested_group: 0.08, p_nested: 0.0, need_private_key: true, p_grouped: 1.0, p_outer: 0.0, p_distinct: 0.05, ..base },
+            "C09" => Profile { p_hidden_keys: 0.0, p_schema_path: 0.1, p_cond_agg: 0.15, p_where_fn: 0.2, p_where_col_cmp: 0.2, p_math_exprs: 0.2, p_count_of_unique: 0.6, p_fn_exprs: 0.25, p_modulo: 0.12, p_alias_shadow: 0.4, public_keys_only: true, benign_data: true, p_distinct: 0.12, p_row_privacy: 0.15, p_grouped: 0.65, ..base },
+            "C04" => Profile { p_hidden_keys: 0.1, p_where_fn: 0.2, p_unsupported_agg: 0.08, p_key_via_agg: 0.25, p_nested_group: 0.08, p_nested: 0.0, need_private_key: true, p_grouped: 1.0, p_outer: 0.0, p_distinct: 0.05, ..base },
             "C16" => Profile { benign_data: true, full_catalogue: true, p_public_table: 1.0, p_synthetic: 0.3, ..base },
-            "C02" => Profile { p_where_fn: 0.1, p_pu_without_root: 0.08, p_extra_select: 0.05, p_join_of_subqueries: 0.05, p_on_or: 0.04, p_unsupported_agg: 0.08, p_cross: 0.04, p_outer_kinds: 0.05, p_multi_dp: 0.04, p_nested_group: 0.03, p_shared_cte: 0.08, p_plain: 0.25, p_synthetic: 0.4, p_public_table: 0.5, p_outer: 0.2, ..base },
+            "C02" => Profile { p_hidden_keys: 0.08, p_where_fn: 0.1, p_pu_without_root: 0.08, p_extra_select: 0.05, p_join_of_subqueries: 0.05, p_on_or: 0.04, p_unsupported_agg: 0.08, p_cross: 0.04, p_outer_kinds: 0.05, p_multi_dp: 0.04, p_nested_group: 0.03, p_shared_cte: 0.08, p_plain: 0.25, p_synthetic: 0.4, p_public_table: 0.5, p_outer: 0.2, ..base },
             _ => base,
         }
     }
@@ -886,6 +890,7 @@ pub fn generate(seed: u64, run: u64, prop: &str) -> Generated {
                 outer_group_by: false,
                 extra_select: vec![],
                 shadow_cte: None,
+                hide_keys: false,
             };
             let base = Some((a, base_name.clone()));
             return finish(seed, run, tables2, synthetic, pu, params, query, base, tags, faults, &protected);
@@ -927,7 +932,7 @@ pub fn generate(seed: u64, run: u64, prop: &str) -> Generated {
                 sql
             };
             tags.push("multi_dp".into());
-            let query = QuerySpec { from: vec![], where_: vec![], keys: vec![], aggs: vec![], having: None, outer: None, plain: None, cte: None, raw_sql: None, holders_override: None, inner_where: vec![], outer_group_by: false, extra_select: vec![], shadow_cte: None };
+            let query = QuerySpec { from: vec![], where_: vec![], keys: vec![], aggs: vec![], having: None, outer: None, plain: None, cte: None, raw_sql: None, holders_override: None, inner_where: vec![], outer_group_by: false, extra_select: vec![], shadow_cte: None, hide_keys: false };
             let base = Some((a, base_t.name.clone()));
             let mut g = finish(seed, run, tables, synthetic, pu, params, query, base, tags, faults, &protected);
             g.scenario.sql = sql;
@@ -978,7 +983,7 @@ pub fn generate(seed: u64, run: u64, prop: &str) -> Generated {
             };
             tags.push(format!("keys:{}", if public_set_of(&kc.ty).is_some() { "pub" } else { "priv" }));
             tags.push("shared_cte".into());
-            let query = QuerySpec { from: vec![], where_: vec![], keys: vec![], aggs: vec![], having: None, outer: None, plain: None, cte: None, raw_sql: None, holders_override: None, inner_where: vec![], outer_group_by: false, extra_select: vec![], shadow_cte: None };
+            let query = QuerySpec { from: vec![], where_: vec![], keys: vec![], aggs: vec![], having: None, outer: None, plain: None, cte: None, raw_sql: None, holders_override: None, inner_where: vec![], outer_group_by: false, extra_select: vec![], shadow_cte: None, hide_keys: false };
             let base = Some((a, base_t.name.clone()));
             let mut g = finish(seed, run, tables, synthetic, pu, params, query, base, tags, faults, &protected);
             g.scenario.sql = sql;
@@ -1008,7 +1013,7 @@ pub fn generate(seed: u64, run: u64, prop: &str) -> Generated {
             let sql = format!("SELECT sum(t.a) AS a0 FROM (SELECT o.id AS id, {}(o.{}) AS a FROM orders AS o GROUP BY o.id) AS t", f, vc);
             tags.push("nested_by_id".into());
             let base = Some(("o".to_string(), "orders".to_string()));
-            let query = QuerySpec { from: vec![], where_: vec![], keys: vec![], aggs: vec![], having: None, outer: None, plain: None, cte: None, raw_sql: None, holders_override: None, inner_where: vec![], outer_group_by: false, extra_select: vec![], shadow_cte: None };
+            let query = QuerySpec { from: vec![], where_: vec![], keys: vec![], aggs: vec![], having: None, outer: None, plain: None, cte: None, raw_sql: None, holders_override: None, inner_where: vec![], outer_group_by: false, extra_select: vec![], shadow_cte: None, hide_keys: false };
             let protected2: Vec<String> = protected.iter().filter(|t| *t != "items").cloned().collect();
             let synthetic2: Vec<TableSpec> = synthetic.iter().filter(|t| !t.name.contains("items")).cloned().collect();
             let mut g = finish(seed, run, tables2, synthetic2, pu2, params, query, base, tags, faults, &protected2);
@@ -1032,7 +1037,7 @@ pub fn generate(seed: u64, run: u64, prop: &str) -> Generated {
                 oc = oc
             );
             let base = Some(("u".to_string(), "users".to_string()));
-            let query = QuerySpec { from: vec![], where_: vec![], keys: vec![], aggs: vec![], having: None, outer: None, plain: None, cte: None, raw_sql: None, holders_override: None, inner_where: vec![], outer_group_by: false, extra_select: vec![], shadow_cte: None };
+            let query = QuerySpec { from: vec![], where_: vec![], keys: vec![], aggs: vec![], having: None, outer: None, plain: None, cte: None, raw_sql: None, holders_override: None, inner_where: vec![], outer_group_by: false, extra_select: vec![], shadow_cte: None, hide_keys: false };
             let mut g = finish(seed, run, tables, synthetic, pu, params, query, base, tags, faults, &protected);
             g.scenario.sql = sql;
             g.scenario.query = None;
@@ -1051,7 +1056,7 @@ pub fn generate(seed: u64, run: u64, prop: &str) -> Generated {
         tags.push("plain".into());
         let set_op = if from.len() == 1 && rg.chance(0.3) { Some(*rg.pick(&["UNION", "UNION ALL", "EXCEPT", "INTERSECT"])) } else { None };
         let base = Some((alias_of(&base_t.name), base_t.name.clone()));
-        let query = QuerySpec { from, where_, keys: vec![], aggs: vec![], having: None, outer: None, plain: Some(plain), cte: None, raw_sql: None, holders_override: None, inner_where: vec![], outer_group_by: false, extra_select: vec![], shadow_cte: None };
+        let query = QuerySpec { from, where_, keys: vec![], aggs: vec![], having: None, outer: None, plain: Some(plain), cte: None, raw_sql: None, holders_override: None, inner_where: vec![], outer_group_by: false, extra_select: vec![], shadow_cte: None, hide_keys: false };
         if let Some(op) = set_op {
             // a set operation of the projection with itself (both branches read protected rows)
             tags.push("set_operation".into());
@@ -1333,6 +1338,28 @@ pub fn generate(seed: u64, run: u64, prop: &str) -> Generated {
     if aggs.is_empty() {
         aggs.push(AggSpec { f: AggFn::CountStar, distinct: false, arg: String::new(), alias: "a0".into(), scale: 1.0 });
     }
+    // many sums in one aggregation (own stream): the budget is divided among all of them, and
+    // whatever rule divides it is only stressed when there are a dozen or two
+    let mut rma = Rng::stream(seed, run, "many_aggs");
+    if rma.chance(profile.p_many_aggs) && !numeric.is_empty() {
+        let n = 8 + rma.below(18) as usize;
+        let abs_of = |c: &ColSpec| -> f64 {
+            match &c.ty {
+                ColType::IntRange { lo, hi } => (lo.abs().max(hi.abs())) as f64,
+                ColType::FloatRange { lo, hi } => lo.abs().max(hi.abs()),
+                ColType::IntValues(v) => v.iter().map(|x| x.abs() as f64).fold(0.0, f64::max),
+                ColType::FloatValues(v) => v.iter().map(|x| x.abs()).fold(0.0, f64::max),
+                _ => 1.0,
+            }
+        };
+        let mut j = aggs.len();
+        while aggs.len() < n {
+            let (q, c) = numeric[rma.usize(numeric.len())];
+            aggs.push(AggSpec { f: AggFn::Sum, distinct: false, arg: format!("{} + {}", q, j), alias: format!("a{}", j), scale: abs_of(c) + j as f64 });
+            j += 1;
+        }
+        tags.push("many_aggs".into());
+    }
     // a conditional inside the aggregate (own stream): sum(CASE WHEN x > m THEN x ELSE 0 END)
     let mut rca = Rng::stream(seed, run, "case_in_aggregate");
     for a in aggs.iter_mut() {
@@ -1386,7 +1413,7 @@ pub fn generate(seed: u64, run: u64, prop: &str) -> Generated {
             tags.push("nested".into());
         }
     }
-    let mut query = QuerySpec { from, where_, keys, aggs, having, outer: if cte.is_some() { None } else { outer }, plain: None, cte, raw_sql: None, holders_override: None, inner_where: vec![], outer_group_by: false, extra_select: vec![], shadow_cte: None };
+    let mut query = QuerySpec { from, where_, keys, aggs, having, outer: if cte.is_some() { None } else { outer }, plain: None, cte, raw_sql: None, holders_override: None, inner_where: vec![], outer_group_by: false, extra_select: vec![], shadow_cte: None, hide_keys: false };
     // HAVING on a SUM (own stream) instead of on count(*): the threshold has a fraction no sum of
     // generated values hits, so rounding cannot decide the group
     let mut rha = Rng::stream(seed, run, "having_agg");
@@ -1705,6 +1732,13 @@ pub fn generate(seed: u64, run: u64, prop: &str) -> Generated {
             query.inner_where.push(w);
             tags.push("inner_where".into());
         }
+    }
+    // keys that are grouped on but not selected (own stream): `SELECT count(*) FROM t GROUP BY k`
+    let mut rhk = Rng::stream(seed, run, "hidden_keys");
+    if rhk.chance(profile.p_hidden_keys) && !query.keys.is_empty() && query.outer.is_none() && query.having.is_none() && query.cte.is_none()
+        && query.extra_select.is_empty() && query.keys.iter().all(|k| k.select_agg.is_none() && k.group_expr.is_none() && k.public_set.is_none() && !k.ambiguous) {
+        query.hide_keys = true;
+        tags.push("hidden_keys".into());
     }
     // a schema-qualified catalogue (tables registered as main.<name>), and on it a CTE named like
     // the table it filters: `WITH orders AS (SELECT * FROM main.orders AS o WHERE ...) ... FROM
